@@ -8,14 +8,15 @@
                        `stratify` (:550: NotStratifiable ⇒ silent fallback `basic_stratify`)
     src/rule_catalog.rs `validate_rule` (:52), `validate_rules_stratification` (:116),
                        `RuleCatalog::register_rule` (:437), `register` (:487, no check), `drop` (:518),
-                       `drop_by_prefix` (:530), `clear_rules` (:553), `replace_rule` (:565, no check),
+                       `drop_by_prefix` (:530), `clear_rules` (:553), `replace_rule` (:565, validated),
                        `remove_rule_clause` (:591), `RuleDefinition::add_rule` (:338, dedup)
     src/ast/mod.rs     `Rule::positive_body_variables` (:1103), `Rule::is_safe` (:1071)
     src/lib.rs         `IQLEngine::parse` (:600: safety only, then `recursion::stratify`)
     src/protocol/handler.rs  `QueryJob::execute`: `PersistentRule` → `register_rule_in`;
                        `SessionRule` → `validate_rule` + `validate_session_rule_compatibility` only;
                        `execute_program`: session rules stored after `validate_rule` only;
-                       query = snapshot rule prefix ++ session/request rules ++ query rule → engine.
+                       before a query runs: `validate_rules_stratification` on snapshot rules ++ session /
+                       request rules; then snapshot rule prefix ++ session/request rules ++ query rule → engine.
 
   The code decides "some negative edge has both ends in one SCC of the all-edges graph" with Tarjan's
   algorithm over hash maps (iteration order unspecified).  The model decides the same thing through
@@ -243,11 +244,18 @@ def removeClause (c : Catalog) (n idx1 : Nat) : Catalog × Out :=
         let rs' := rs.eraseIdx i
         (if rs'.isEmpty then catDel c n else catSet c n rs', .ok)
 
-/-- `StorageEngine::replace_rule_in` → `RuleCatalog::replace_rule`: NO validation at all (0-based index). -/
+/-- `StorageEngine::replace_rule_in` → `RuleCatalog::replace_rule` (0-based index): name and index, then
+    `validate_rule` on the new clause, then stratification of the catalog with the clause substituted. -/
 def replaceClause (c : Catalog) (n i : Nat) (r : Rule) : Catalog × Out :=
   match catGet c n with
   | none => (c, .err .nf)
-  | some rs => if i ≥ rs.length then (c, .err .oob) else (catSet c n (rs.set i r), .ok)
+  | some rs =>
+    if i ≥ rs.length then (c, .err .oob)
+    else match validateRule r with
+      | some e => (c, .err e)
+      | none =>
+        let c' := catSet c n (rs.set i r)
+        if stratRejects (catRules c') then (c, .err .unstrat) else (c', .ok)
 
 /-! ### requests against one handler -/
 
@@ -285,8 +293,12 @@ def acceptLocals : List Rule → List Rule → Except Err (List Rule)
     | some e => .error e
     | none => if sessCompat acc r then acceptLocals (acc ++ [r]) rs else .error .arity
 
-/-- what the engine is handed and what it does with it: safety is the only gate. -/
-def runQuery (rs : List Rule) : Out := if engineAccepts rs then .eval else .err .unsafeEngine
+/-- a query request: the handler first checks stratification of everything in force (persistent rules of
+    the snapshot ++ session / request rules; `QueryJob::execute`, `query_program_with_session`), then the
+    engine applies its own gate, safety. -/
+def runQuery (rs : List Rule) : Out :=
+  if stratRejects rs then .err .unstrat
+  else if engineAccepts rs then .eval else .err .unsafeEngine
 
 /-- the rule set in force for a query request (none for other requests). -/
 def inForce (s : St) : Op → Option (List Rule)
